@@ -8,7 +8,9 @@ def run(ctx):
         "hand model coq/model/Remap.v (exact N/Z arithmetic) of _create_reverse_map/_reverse_map_bits/"
         "_reverse_map_counts and of the relabelling done by QubitRemappingTranspiler, tied by vm_compute "
         "correspondence (corr_C18.py) and AST fingerprints",
-        "partial: constructor/`__call__` rejections and the qiskit/braket wrappers are decided by the sweep",
+        "partial: constructor/`__call__` rejections and the qiskit/braket wrappers (wrap_C18.py: braket LocalSimulator, "
+        "qiskit utils with a fake job; qiskit.providers.backend.BackendV1 is absent from the installed qiskit and is "
+        "replaced by a placeholder class for the import) are decided by the sweep",
     ]
     fingerprint.check(ctx, "packages/core/quri_parts/backend/qubit_mapping.py",
                       ["_create_reverse_map", "_reverse_map_bits", "_reverse_map_counts",
@@ -17,3 +19,4 @@ def run(ctx):
                       ["QubitRemappingTranspiler.__init__", "QubitRemappingTranspiler.__call__"])
     ctx.coq([], ["C18.v"])
     ctx.harness("corr_C18.py", kind="corr")
+    ctx.harness("wrap_C18.py")
